@@ -53,7 +53,8 @@ def Plat.adjust (p : Plat) : Plat :=
   else
     let diff := p.lastReported - p.realPrev
     let adj := (diff * Gen.CLOCK_NOMINAL % W) / p.adjustRate
-    let readj := (adj * p.adjustRate % W) / Gen.CLOCK_NOMINAL
+    -- rounded up: the host time accounted for covers the TPM time credited
+    let readj := ((adj * p.adjustRate + Gen.CLOCK_NOMINAL - 1) % W) / Gen.CLOCK_NOMINAL
     { p with tpmTime := add64 p.tpmTime adj, realPrev := add64 p.realPrev readj }
 
 /-- `_plat__TimerRead`: returns new platform state and the TPM time -/
